@@ -38,10 +38,14 @@ Clauses(r) ==
       [] r.kind = "asn_data" ->
             (IF SameSeq(r.out.pop, Tiled(Nums(r.x), r.N)) THEN {} ELSE {"population:tiled"})
             \cup (IF r.out.result = FirstCrossing(Hist(r), Alpha(r)) THEN {} ELSE {"first_crossing"})
-      [] r.kind = "audit" ->      \* every contest's estimate is the largest among its own assertions
-            IF Len(r.out.sizes) = Len(r.cross) /\ \A k \in 1..Len(r.cross) :
-                  r.out.sizes[k] = (CHOOSE m \in {r.cross[k][j] : j \in 1..Len(r.cross[k])} : \A j \in 1..Len(r.cross[k]) : r.cross[k][j] <= m)
-            THEN {} ELSE {"contest_max"}
+      [] r.kind = "audit" ->      \* every contest's estimate is the largest among its own (not yet confirmed) assertions
+            LET open(k) == {r.cross[k][j] : j \in {j \in 1..Len(r.cross[k]) : ~r.proved[k][j]}}
+                want(k) == IF open(k) = {} THEN 0 ELSE CHOOSE m \in open(k) : \A x \in open(k) : x <= m
+                all == {want(k) : k \in 1..Len(r.cross)}
+            IN  (IF Len(r.out.sizes) = Len(r.cross) /\ \A k \in 1..Len(r.cross) : r.out.sizes[k] = want(k)
+                 THEN {} ELSE {"contest_max"})
+                \* without style information one sample serves every contest: the largest of the contests' estimates
+                \cup (IF r.style \/ r.out.total = (CHOOSE m \in all : \A x \in all : x <= m) THEN {} ELSE {"audit_max"})
       [] r.kind = "contest" ->
             LET want == CHOOSE m \in {r.cross[k] : k \in 1..Len(r.cross)} : \A k \in 1..Len(r.cross) : r.cross[k] <= m
             IN  IF r.out.result = want /\ r.out.attr = want THEN {} ELSE {"contest_max"}
